@@ -250,7 +250,7 @@ def run (inp obs : List String) : Verdict :=
     let pools := (obs.filter (fun t => t.startsWith "P" && !t.startsWith "P-")).filterMap parsePool
     let xd := (obs.filter (·.startsWith "XD:")).mapM (fun t => parseLayerObs ((t.drop 1).toString))
     let xq := (obs.find? (·.startsWith "XQ")).map (fun t => (t.drop 1).toString)
-    let loadBad := pools.any (fun p => p.reps ≠ reps || p.dumpsEq ≠ p.reps)
+    let loadBad := pools.any (fun p => p.reps < reps || p.reps = 0 || p.dumpsEq ≠ p.reps)
     let saveBad := pools.any (fun p => p.listEq ≠ p.saves || p.hashEq ≠ p.saves)
     let poolsBad := pools.map (·.threads) ≠ [1, 2, 4, 16]
     let loadFeat :=
